@@ -218,8 +218,9 @@ def do_transform(sc, model, call):
         return model.transform(build_sparse(data))
     if im == "spmatrix":
         if call.get("refit"):
-            m2 = make_model(sc, input_method="spmatrix")
-            fit_model(sc, m2, data)
+            sc2 = dict(sc, reference_size=None, reference=None) if call.get("default_ref") else sc
+            m2 = make_model(sc2, input_method="spmatrix")
+            fit_model(sc2, m2, data)
             return m2.embedding_
         return model.transform(build_sparse(data), vectors=vec_array(data))
     ds, vs = lists_of(data)
